@@ -67,6 +67,11 @@ def run(ctx):
         # the snapshot of a guard includes the mark bits: same object, mark changed between two acquisitions into the same guard
         jobs.append('%s+g;;acq0:0,mrk0:1,acq0:0,tch0,acqe0:0,mrk0:2,acqe0:0,acq0:1,mrk0:0,acq0:1,acq0:0,swp0:2' % c)
         jobs.append('%s+g;;acq0:0,acq0:0,acqe0:1,acq0:1,tch0,tch1;mrk0:1,mrk0:3,swp0:0,mrk0:2' % c)
+        # protection travels WITH the pointer: after swap / move / copy between two protecting guards one of them is released, the objects are
+        # retired through a third guard (reclamation point) and the surviving guard is dereferenced
+        for op in ('swg0:1', 'mov0:1', 'cpy0:1', 'swg0:1,swg0:1', 'swg1:0', 'mov1:0'):
+            for k in (0, 1):
+                jobs.append('%s+g;;acq0:0,acq1:1,%s,rst%d,swp0:2,swp1:2,swp2:2,rst2,tch0,tch1' % (c, op, k))
         # guards that hold a MARKED NULL pointer (operator bool is true, get() is null): copy / move / swap / assignment / reset of such a
         # guard must leave the protection of the thread's other guards intact (region nesting, slot ownership), also across reclamation points
         tail = 'swp1:3,swp2:3,swp2:3,swp2:3,rgn1,rgn0,rgn1,rgn0,rgn1,rgn0,tch2'
